@@ -39,7 +39,7 @@ PROOF_FAILURE_PATTERNS = (
     "could not prove termination", "might not be allowed", "unable to prove", "fails to satisfy",
 )
 LOG_MACROS = ("trace", "debug", "info", "warn", "error")
-SUBST_KINDS = ("closure-contract", "std-wrap", "std-wrap-all", "verus-syntax", "split-or-guard", "for-ghost-iter", "assoc-type", "eta-ctor", "enumerate-iter-mut", "enumerate-iter", "iter-map-collect", "name-impl-trait", "then-transpose")
+SUBST_KINDS = ("closure-contract", "std-wrap", "std-wrap-all", "verus-syntax", "split-or-guard", "for-ghost-iter", "assoc-type", "eta-ctor", "enumerate-iter-mut", "enumerate-iter", "iter-map-collect", "name-impl-trait", "then-transpose", "fn-ptr-generic")
 
 
 class ExtractError(Exception):
@@ -51,6 +51,64 @@ def _parse_kv(line):
     for m in re.finditer(r'(\w+)=("([^"]*)"|\S+)', line):
         out[m.group(1)] = m.group(3) if m.group(3) is not None else m.group(2)
     return out
+
+
+PINNED_DIR = os.path.join(os.path.dirname(os.path.dirname(os.path.abspath(__file__))), "verus", "pinned")
+_TOK = re.compile(r'"(?:\\.|[^"\\])*"|\'(?:\\.|[^\'\\])\'|//[^\n]*|/\*.*?\*/|[A-Za-z_]\w*|\d\w*|\S', re.S)
+
+
+def _pinned_path(template, d):
+    key = re.sub(r"[^A-Za-z0-9_]+", "_", f"{d.get('impl') or ''}__{d['fn']}").strip("_")
+    return os.path.join(PINNED_DIR, os.path.splitext(os.path.basename(template))[0], key + ".rs")
+
+
+def _tokens(text):
+    return [t for t in _TOK.findall(text) if not t.startswith("//") and not t.startswith("/*")]
+
+
+def _binders(text):
+    """names introduced by let / closure parameters / for / Some|Ok|Err(..) patterns (over-approximation is harmless: the
+    token-wise bijection below is what makes the comparison an alpha-equivalence check)"""
+    b = set()
+    for m in re.finditer(r"\blet\s+(?:mut\s+)?([a-z_]\w*)\b", text):
+        b.add(m.group(1))
+    for m in re.finditer(r"\b(?:let|for)\s+\(([^()]*)\)", text):
+        b.update(re.findall(r"[a-z_]\w*", m.group(1)))
+    for m in re.finditer(r"\bfor\s+([a-z_]\w*)\s+in\b", text):
+        b.add(m.group(1))
+    for m in re.finditer(r"\|([^|()]*)\|", text):
+        for part in m.group(1).split(","):
+            mm = re.match(r"\s*(?:mut\s+|&\s*)?([a-z_]\w*)", part)
+            if mm:
+                b.add(mm.group(1))
+    for m in re.finditer(r"\b(?:Some|Ok|Err)\(\s*(?:ref\s+|mut\s+)?([a-z_]\w*)\s*\)\s*(?:=(?!=)|=>|\|)", text):
+        b.add(m.group(1))
+    return b - {"mut", "ref", "self"}
+
+
+def alpha_equivalent(cur, pinned):
+    """-> {cur name: pinned name} if `cur` is `pinned` with local binders renamed consistently (and nothing else), else None"""
+    a, b = _tokens(cur), _tokens(pinned)
+    if len(a) != len(b):
+        return None
+    fwd, bwd, ren = {}, {}, {}
+    binders = _binders(pinned)
+    ident = re.compile(r"^[A-Za-z_]\w*$")
+    for i, (x, y) in enumerate(zip(a, b)):
+        if not (ident.match(x) and ident.match(y)):
+            if x != y:
+                return None
+            continue
+        if fwd.setdefault(x, y) != y or bwd.setdefault(y, x) != x:
+            return None
+        if x != y:
+            prev = a[i - 1] if i else ""
+            nxt = a[i + 1] if i + 1 < len(a) else ""
+            if y not in binders or prev in (".", "::") or nxt in ("::", "!") or (prev == ":" and i > 1 and a[i - 2] == ":"):
+                return None
+            ren[x] = y
+    return ren if ren else None
+
 
 
 def _find_fn(src, impl_re, name):
@@ -292,6 +350,26 @@ def _validate_subst(kind, old, new, template_text):
                 raise ExtractError("name-impl-trait: a named generic must replace exactly one `impl Bound`")
         if rustscan.norm_ws(m.group(1) + "(" + back).replace(" ", "") != rustscan.norm_ws(old).replace(" ", ""):
             raise ExtractError("name-impl-trait: re-anonymised replacement differs from the original signature text")
+    elif kind == "fn-ptr-generic":
+        # function-pointer parameters become generic `Fn` parameters (Verus has no fn-pointer types; a fn item or a
+        # non-capturing closure passed by the callers coerces to either): `f<G..>(.., p: fn(A) -> R, ..)` ->
+        # `f<G.., FP1: Fn(A) -> R>(.., p: FP1, ..)`. The replacement is GENERATED from the old text and must equal the
+        # template's text modulo whitespace.
+        o = rustscan.norm_ws(old)
+        ptrs = list(re.finditer(r":\s*fn\(([^()]*)\)\s*->\s*((?:[^,<>]|<[^<>]*(?:<[^<>]*>[^<>]*)*>)+?)\s*,(?=\s*(?:\w+\s*:|\)))", o))
+        mh = re.match(r"^(\w+)\s*<([^()]*?)>\s*\(", o)
+        if not ptrs or not mh:
+            raise ExtractError("fn-ptr-generic: old text must be `name<generics>(params with fn(..) -> R, ...)`")
+        gen_extra, out, last = [], "", 0
+        for i, m in enumerate(ptrs, 1):
+            gen_extra.append(f"FP{i}: Fn({m.group(1)}) -> {m.group(2)}")
+            out += o[last:m.start()] + f": FP{i},"
+            last = m.end()
+        out += o[last:]
+        out = out.replace(mh.group(0), f"{mh.group(1)}<{mh.group(2)}, {', '.join(gen_extra)}>(", 1)
+        strip = lambda t: re.sub(r"\s+", "", t)
+        if strip(out) != strip(new):
+            raise ExtractError("fn-ptr-generic: replacement differs from the generated one: " + out)
     elif kind == "then-transpose":
         # `C.then(|| E).transpose()?`  ->  `if C { Some(E?) } else { None }`  (bool::then runs the closure iff C; transpose
         # turns Some(Err(e)) into Err(e), which `?` returns through the same From conversion as `E?` does)
@@ -341,7 +419,7 @@ def _split_top(s):
     return out
 
 
-def extract_fn(repo, d, template_text):
+def extract_fn(repo, d, template_text, template_path=None):
     """d: directive dict -> (generated text, record)"""
     path = os.path.join(repo, d["file"])
     try:
@@ -356,6 +434,21 @@ def extract_fn(repo, d, template_text):
            "line": src.count("\n", 0, it.start) + 1, "transformations": []}
     tr = rec["transformations"]
     sig, body = it.sig.rstrip(), it.body
+    # locals renamed and nothing else? then the pinned text (kept by `./check pin`) IS this function up to alpha-conversion:
+    # verify that text, so that ghost text and anchors that mention locals keep working
+    if d.get("sha") and not rec["sha256"].startswith(d["sha"]) and template_path:
+        pp = _pinned_path(template_path, d)
+        if os.path.exists(pp):
+            ptxt = open(pp, encoding="utf-8").read()
+            if common.sha256_text(ptxt).startswith(d["sha"]):
+                ren = alpha_equivalent(it.text, ptxt)
+                if ren:
+                    sig, body = _resplit(ptxt)
+                    sig = sig.rstrip()
+                    rec["source_sha256"] = rec["sha256"]
+                    rec["sha256"] = common.sha256_text(ptxt)
+                    tr.append({"kind": "alpha-rename", "renamed_locals": ren,
+                               "note": "the current text equals the pinned text up to a consistent renaming of local binders; the pinned spelling is verified"})
     # attributes/doc comments before the fn are simply not part of the span => drop-attr
     dropped = _preceding_attr_lines(src, it.start)
     if dropped:
@@ -863,7 +956,7 @@ class Unit:
             if kind == "text":
                 chunk = val + "\n"
             elif kind == "extract":
-                gen, rec = extract_fn(repo, val, ttext)
+                gen, rec = extract_fn(repo, val, ttext, self.template)
                 chunk = gen
                 sofar = "".join(out)
                 owner = None
@@ -1061,6 +1154,12 @@ def pin(unit, repo):
             continue
         _, rec = extract_fn(repo, d, ttext)
         sha = rec["sha256"][:16]
+        # keep the pinned spelling: lets a later run recognise "only locals were renamed" (alpha_equivalent)
+        src = open(os.path.join(repo, d["file"]), encoding="utf-8").read()
+        pp = _pinned_path(unit.template, d)
+        os.makedirs(os.path.dirname(pp), exist_ok=True)
+        with open(pp, "w", encoding="utf-8") as f:
+            f.write(_find_fn(src, d.get("impl"), d["fn"]).text)
         pat = re.compile(r"(//@EXTRACT[^\n]*\bfn=%s\b[^\n]*)" % re.escape(d["fn"]))
 
         def rep(m):
